@@ -81,8 +81,7 @@ def new_op(rng, kind, idn=0, small=False, **over):
         # FFT sizes are multiples of fs/gcd: keep them affordable
         from math import gcd
         g = gcd(a, b)
-        cap = 6000 if rng.random() < 0.15 else 2000
-        while max(a, b) // g > cap:
+        while max(a, b) // g > 2000:
             a, b = rng.choice(RATES), rng.choice(RATES)
             g = gcd(a, b)
         op["fs_in"], op["fs_out"] = a, b
@@ -96,6 +95,14 @@ def new_op(rng, kind, idn=0, small=False, **over):
             f = max(unit, (f // unit) * unit)
             op["sub"] = 1 if kind == "FftFixedInOut" else rng.choice([1, 2, 3, 4, 5, 6, 7, 8])
             op["chunk"] = f * op["sub"]
+        # TLC's integers are 32 bits: the contract multiplies frame totals by the reduced rates
+        # (totOut * fs_in/gcd against totIn * fs_out/gcd); keep 100 calls' worth of frames below 2^30
+        g = gcd(op["fs_in"], op["fs_out"])
+        ra, rb = op["fs_in"] // g, op["fs_out"] // g
+        while 100 * max(op["chunk"], ra, rb) * max(ra, rb) >= (1 << 30) and op["chunk"] > 1:
+            op["chunk"] = max(1, op["chunk"] // 2)
+            if op["sub"] > op["chunk"]:
+                op["sub"] = 1
     op.update(over)
     return op
 
